@@ -28,7 +28,7 @@ try:
     if rc: res['apply_out'] = out[-500:]
     if '--skip-baseline' not in sys.argv:
         rc, out = run(['/verif/tools/baseline.sh'])
-        res['baseline'] = out.strip().splitlines()[-1] if out.strip() else ''
+        res['baseline'] = (out.strip().splitlines()[-1] if out.strip() else '')[:60]
         res['baseline_rc'] = rc
     rc, out = run(['/venv/bin/python', demo, wt], cwd='/tmp')
     res['demo_with'] = rc; res['demo_out'] = out.strip()[-400:]
